@@ -74,11 +74,14 @@ EXTRA_TECH = {
  "C01": L3 + FZ, "C02": L3 + FZ, "C03": L3 + FZ, "C04": L3 + FZ, "C05": L3 + FZ, "C07": L3 + FZ,
  "C06": "; the same jumps and loops inside whole programs through the real CLI (forward targets, self-targeting LOOPx, counted backward loops, flags set with PUSH/POPF) compared with the reference machine",
  "C08": "; deep families through the CLI (recursion to depth n, chains of n procedures, n sequential calls returning or leaving by a jump, n up to 4000 quick / 65535 thorough)",
- "C09": FZ + "; the console interrupt services pointed at the last bytes of the address space through the CLI (C18's reference as oracle)",
+ "C09": FZ + "; the console interrupt services pointed at the last bytes of the address space through the CLI (C18's reference as oracle), in the optimised build and in the one cargo makes by default (overflow-checked)",
+ "C11": "; a third rendering in which immediates reach their instruction as macro arguments; OFFSET-versus-number family through the CLI",
+ "C15": "; keyboard/screen programs (C18's generator) and a share of the text mutants also in the unoptimised, overflow-checked build of the emulator",
+ "C18": "; every program also in the unoptimised, overflow-checked build (must end normally with byte-identical output); RLIMIT_CPU on these straight-line programs so that a spinning emulator is a kernel signal, not a watchdog timeout",
  "C10": "; name probes (every identifier-like terminal that a downstream grammar of the working tree knows and the assembler does not, plausible program vocabulary, keywords with one character added -- used as code label, data label, procedure, macro name, macro parameter), boundary probes on both sides of every acceptance range and C14's near misses through the CLI; thorough tier: libFuzzer `compose` target",
  "C17": "; deterministic family of print commands on both sides of every bound of the print reader typed at INT 3 and -i prompts with DS from 0 to FFFFh",
  "C20": "; stepping while the program reads the keyboard (prompt answers and INT 21h input interleaved on one stdin in the order the reference consumes them); print commands on both sides of every bound of the print reader at the prompt",
- "C19": "; Default-constructed machines; a Preprocessor context reused after clear(); histories with macro chains beyond the nesting limit; several undefined jumps out of one macro use",
+ "C19": "; Default-constructed machines; a Preprocessor context reused after clear(); histories with macro chains beyond the nesting limit; several undefined jumps out of one macro use; brand-new objects after a long never-reset history compared with a brand-new process",
 }
 for k, v in EXTRA_TECH.items():
     t, a, b, c = CHECKS[k]
